@@ -113,7 +113,20 @@ def fit_case(case):
     # what the estimator is documented to see (float32 data is scored in float32: the affinity of the *given* data)
     Xeff = np.asarray(Xin) if form == "float32" else np.asarray(Xin, dtype=float)
     model, y, expect = C.build(name, spec, Xeff, seed)
-    where = dict(estimator=name, deviating=sorted(k for k in spec if k not in ("random_state",)), n=n, d=d, form=form)
+    reconfigured = form == "reconfigured"
+    if reconfigured:
+        # scikit-learn protocol route: the estimator is built with the default configuration, USED once (fit + score), then given the
+        # configuration under test with set_params, exactly what clone().set_params() / a grid search does to a long-lived object
+        form = "float64"
+        m0, y0, _ = C.build(name, {"random_state": spec.get("random_state", seed)}, Xeff, seed)
+        try:
+            m0.fit(Xin, y0)
+            m0.score(Xin, y0)
+        except Exception:  # noqa
+            pass
+        m0.set_params(**model.get_params(deep=False))
+        model = m0
+    where = dict(estimator=name, deviating=sorted(k for k in spec if k not in ("random_state",)), n=n, d=d, form="reconfigured" if reconfigured else form)
     for k in ("gemini", "kernel", "metric", "batch_size", "n_clusters", "ovo", "base_kernel"):
         if k in spec:
             where[k] = spec[k] if not isinstance(spec[k], list) else "/".join(map(str, spec[k]))
@@ -245,6 +258,8 @@ def explorers(tier, seed):
                     if a == "n_clusters" and name in M.SPARSE and False:
                         pass
                     cases.append((name, s, shape, "float64", seed))
+                    if shape == SHAPES[-1]:
+                        cases.append((name, s, shape, "reconfigured", seed))
             pairs = [(a, b) for a, b in COUPLED if a in ax and b in ax]
             if thorough:
                 pairs = list(itertools.combinations(ax, 2))
@@ -272,5 +287,5 @@ def explorers(tier, seed):
                      rule="all 18 estimators x data shapes {(3,1),(4,2),(6,3)} x every single-axis deviation from the default over the documented axes "
                           "(13 GEMINI names + instances + None, solver, every batch size 1..n+1, every n_clusters 1..n, kernel/metric menus incl. "
                           "callable/precomputed, ovo, reg, groups, alpha, M, dynamic, n_cuts, temperature, feature_mask, tree limits) + two-axis deviations on "
-                          "coupled axes (all pairs in thorough) + input forms {C, Fortran, int64, float32, nested list} + refits of the same configuration on narrower / wider / shorter data; non-trivial = fit ending with >=2 clusters",
+                          "coupled axes (all pairs in thorough) + every single-axis configuration also reached by set_params on a used default estimator + input forms {C, Fortran, int64, float32, nested list, zero/constant column, duplicate rows, x1000} + refits of the same configuration on narrower / wider / shorter data; non-trivial = fit ending with >=2 clusters",
                      bound="deviation bound 1 everywhere, 2 on coupled axes (quick) / all axis pairs (thorough)")]
